@@ -38,6 +38,10 @@ def _setup_symbolic():
     # Paths that touch real-modelled floats are capped at UNKNOWN, and a ParallelNode whose symbolic side is UNKNOWN
     # is only exhausted when the sampling side is exhausted too -- which never happens.  Arguments are plain
     # symbolic values here; the searches either exhaust or are reported inconclusive.
+    # No short-circuiting: CrossHair may replace a call to any function that carries a contract (its own patched
+    # repr(), or one harness function calling another) by an uninterpreted symbolic return value behind a ParallelNode.
+    # Every call is executed for real here.
+    core.ShortCircuitingContext.make_interceptor = lambda self, original: original
     core._SIMPLE_PROXIES[int] = lambda creator, *a: bl.SymbolicBoundedInt(creator.varname, creator.pytype)
     core._SIMPLE_PROXIES[bool] = lambda creator, *a: bl.SymbolicBool(creator.varname, creator.pytype)
     if FLOAT_MODEL == "real":
